@@ -54,7 +54,15 @@ UNITS = [
 
 # ---------------------------------------------------------------- pivoted LU (slice level)
 LUP = 'linalg::decomposition::lu::'
-LU_SPEC = r'''
+PERM_SPEC = r'''
+/// pivots is a permutation of 0..n
+pub open spec fn is_perm32(p: Seq<i32>, n: int) -> bool {
+    &&& p.len() == n
+    &&& forall|i: int| 0 <= i < n ==> 0 <= #[trigger] p[i] < n
+    &&& forall|i: int, k: int| 0 <= i < k < n ==> #[trigger] p[i] != #[trigger] p[k]
+}
+'''
+LU_SPEC = PERM_SPEC + r'''
 /// multipliers of the columns < j are bounded by 1 in magnitude (property C11)
 pub open spec fn bounded(lu: Seq<f64>, n: int, j: int) -> bool {
     forall|r: int, c: int| 0 <= c < j && c < r < n ==> r_abs(rv(#[trigger] at2(lu, n, r, c))) <= 1real
@@ -62,12 +70,6 @@ pub open spec fn bounded(lu: Seq<f64>, n: int, j: int) -> bool {
 /// |lu[r,j]| <= |lu[p,j]| for r in lo..hi
 pub open spec fn colmax(lu: Seq<f64>, n: int, j: int, p: int, lo: int, hi: int) -> bool {
     forall|r: int| lo <= r < hi ==> r_abs(rv(#[trigger] at2(lu, n, r, j))) <= r_abs(rv(at2(lu, n, p, j)))
-}
-/// pivots is a permutation of 0..n
-pub open spec fn is_perm32(p: Seq<i32>, n: int) -> bool {
-    &&& p.len() == n
-    &&& forall|i: int| 0 <= i < n ==> 0 <= #[trigger] p[i] < n
-    &&& forall|i: int, k: int| 0 <= i < k < n ==> #[trigger] p[i] != #[trigger] p[k]
 }
 pub proof fn lemma_perm32_swap(p: Seq<i32>, n: int, a: int, b: int) requires is_perm32(p, n), 0 <= a < n, 0 <= b < n
     ensures is_perm32(p.update(a, p[b]).update(b, p[a]), n)
